@@ -85,6 +85,11 @@ class _SimRunner(_OrigRunner):
         rid = self.adapter.run_id
         w.runner_no += 1
         self._sim_runner_no = w.runner_no
+        try:
+            from sim.sqlite_seam import INCARNATION as _INC
+            self._sim_inc = _INC.get()
+        except Exception:  # noqa: BLE001
+            self._sim_inc = None
         w.live_runners.setdefault(rid, []).append(self)
         w.trace.log("runner-start", run=rid, runner=self._sim_runner_no)
         try:
@@ -92,7 +97,8 @@ class _SimRunner(_OrigRunner):
         finally:
             for h in getattr(w, "runner_exit_hooks", ()):
                 h(self)
-            w.live_runners[rid].remove(self)
+            if self in w.live_runners.get(rid, []):
+                w.live_runners[rid].remove(self)
             w.trace.log("runner-exit", run=rid, runner=self._sim_runner_no)
 
 
